@@ -10,4 +10,6 @@ mkdir -p .work/bin evidence replays
 ./.work/bin/extract /repo lean/TunnelModel/Generated/Facts.lean lean/TunnelModel/Generated/Locks.lean
 (cd lean && lake build)
 (cd harness && go1.26.8 test -c -tags verif -o ../.work/bin/harness.test .)
+# race-instrumented harness (C02 / C15 stress); warms the build cache so that checks only relink
+(cd harness && go1.26.8 test -race -c -tags verif -o ../.work/bin/harness.race.test .)
 echo setup-ok
